@@ -104,6 +104,8 @@ def shards(tier):
     # exponent pairs far apart (half range and full range), both tiers
     for blk in BINARY:
         out.append({'block': blk, 'part': 'fargaps', 'nm': 6})
+        # operands of equal exponent that differ in exactly one mantissa bit (every bit position, three base patterns)
+        out.append({'block': blk, 'part': 'bitflip', 'nm': 6})
     # operand pairs whose exact product / sum lies next to a binade boundary (normalisation switch, rounding carry)
     for blk in ('FPMult_SP', 'FPAdder_SP'):
         out.append({'block': blk, 'part': 'boundary', 'nm': 11})
@@ -241,6 +243,15 @@ def binary_pairs(d):
         return gen2()
     if d['part'] == 'close':
         return close_pairs(d)
+    if d['part'] == 'bitflip':
+        def gen4():
+            for e in (1, 64, 127, 128, 254):
+                for base in (0x000000, 0x2AAAAA, 0x555555, 0x7FFFFF):
+                    for k in range(23):
+                        for sx in (0, 1):
+                            for sy in (0, 1):
+                                yield fp.encode(sx, e, base), fp.encode(sy, e, base ^ (1 << k))
+        return gen4()
     if d['part'] == 'boundary':
         return boundary_pairs(d)
     if d['part'] == 'fargaps':
